@@ -14,6 +14,26 @@ META = {
  "C06": w("is_completed() compared with the model after every operation; sequence teardown listing compared in registration order.", "DESIGN.md 5/C06"),
  "C07": w("Exploration of stacks of allowing/forbidding expectations; one fatal forbidden report with location and arguments, no action, no state change.", "DESIGN.md 5/C07"),
  "C08": w("Clause log (side effects, RETURN/THROW, WITH) compared with the model's expected evaluation order, including throwing and nested calls.", "DESIGN.md 5/C08"),
+ "C09": dict(engine='P (generated parameter-passing programs, Hypothesis)', design_ref='DESIGN.md 5/C09',
+             level_text='Generated programs cover every arity 0..15 x passing mode x position x const/overload/interface kind; the oracle (address identity, copy/move counters, caller-visible writes, capture semantics) runs inside the generated clauses under ASan/UBSan.',
+             level_note='Trusted: the generator/oracle in harness/params, g++/clang++ and their sanitizers.',
+             technique='property-based testing: Hypothesis-generated programs with the oracle embedded in the clauses; compilers and sanitizers as part of the SUT'),
+ "C10": dict(engine='M (matcher trees, rapidcheck)', design_ref='DESIGN.md 5/C10',
+             level_text="Random and exhaustively enumerated matcher expression trees built from the library's matchers are evaluated on whole value domains and compared with an independent evaluator; algebraic laws; end-to-end through mock calls.",
+             level_note='Trusted: the independent evaluator in harness/matchers/m_main.cpp, std::regex as the regex oracle, sanitizers.',
+             technique='property-based testing: rapidcheck-generated expression trees against an independent evaluator, algebraic (metamorphic) laws, bounded exhaustive enumeration'),
+ "C11": dict(engine='R (range matchers, exhaustive + rapidcheck)', design_ref='DESIGN.md 5/C11',
+             level_text='Exhaustive small scope of ranges x element lists x spellings x container kinds plus random longer cases against multiset / prefix / suffix / quantifier semantics and a nondeterministic first-fit oracle.',
+             level_note='Trusted: the oracle in harness/ranges/r_main.cpp, sanitizers.',
+             technique='property-based testing: bounded exhaustive enumeration and rapidcheck generation against an independent oracle'),
+ "C19": dict(engine='K (generated compile-time programs, Hypothesis; compilers as SUT)', design_ref='DESIGN.md 5/C19 + Appendix A',
+             level_text='Shipped negative programs, macro-namespace dump and Hypothesis-generated legal / single-fault / multi-fault expectation statements checked against a 45-row rule table at C++14/17/20 with g++ and clang++.',
+             level_note='Trusted: the rule table in harness/compile/rules.py (derived from documentation and static_assert texts), g++ 12 / clang++ 14.',
+             technique='property-based testing: grammar-based program generation (Hypothesis) with a rule-engine oracle; compilers as the system under test'),
+ "C20": dict(engine='Q (coroutines, rapidcheck, C++20)', design_ref='DESIGN.md 5/C20',
+             level_text='Generated clause lists, call counts and resume interleavings over eager and lazy task/generator types against a per-coroutine-object script oracle, under ASan (incl. stack-use-after-return) and UBSan.',
+             level_note='Trusted: the model in harness/coro/q_main.cpp, own minimal coroutine types, sanitizers.',
+             technique='property-based testing: rapidcheck-generated cases against a reference model, sanitizers on'),
  "C12": dict(engine="T (threads: TSan free-running + owned schedules)", design_ref="DESIGN.md 5/C12",
              level_text="Generated multi-threaded programs run under ThreadSanitizer (races), under generated and exhaustively enumerated lock-order schedules (custom mutex), each checked for linearizability against a sequential model in lock order.",
              level_note="Trusted: ThreadSanitizer, the custom-mutex shim (documented TROMPELOEIL_CUSTOM_RECURSIVE_MUTEX), the sequential model in harness/threads/t_main.cpp. TSan sees races only on executions that happen; mode B/E explore lock-order interleavings only.",
@@ -29,11 +49,6 @@ META = {
  "C17": w("Trace records compared per accepted call: innermost tracer, handler location/text, arguments in order, value / what() / unknown.", "DESIGN.md 5/C17"),
 }
 NOT_APPLICABLE = {
- "C09": "check not built yet (engine P, generated parameter-passing programs) - in progress, see DESIGN.md 5/C09",
- "C10": "check not built yet (engine M, matcher trees) - in progress, see DESIGN.md 5/C10",
- "C11": "check not built yet (engine R, range matchers) - in progress, see DESIGN.md 5/C11",
- "C19": "check not built yet (engine K, generated compile-time programs) - in progress, see DESIGN.md 5/C19",
- "C20": "check not built yet (engine Q, coroutines) - in progress, see DESIGN.md 5/C20",
 }
 ENGINES = [
  dict(name="W", path="harness/world", serves_properties=["C01","C02","C03","C04","C05","C06","C07","C08","C13","C14","C15","C16","C17"],
@@ -41,3 +56,9 @@ ENGINES = [
 ]
 ENGINES.append(dict(name="T", path="harness/threads", serves_properties=["C12"], kind_free_text="rapidcheck-generated thread programs; TSan build (free running) and ASan build (owned / enumerated schedules) through the custom recursive mutex"))
 ENGINES.append(dict(name="S", path="harness/printing", serves_properties=["C18"], kind_free_text="rapidcheck over a closed family of 124 value types x prior stream states, independent renderer"))
+ENGINES.append(dict(name="M", path="harness/matchers", serves_properties=["C10"], kind_free_text="rapidcheck matcher trees + exhaustive depth-2 scope, independent evaluator"))
+ENGINES.append(dict(name="R", path="harness/ranges", serves_properties=["C11"], kind_free_text="exhaustive small scope + rapidcheck, independent range oracle"))
+ENGINES.append(dict(name="C8", path="harness/clauses", serves_properties=["C08"], kind_free_text="rapidcheck over 108 literal clause sites, recursive interpreter oracle"))
+ENGINES.append(dict(name="Q", path="harness/coro", serves_properties=["C20"], kind_free_text="rapidcheck over coroutine sites, C++20, both compilers"))
+ENGINES.append(dict(name="P", path="harness/params", serves_properties=["C09"], kind_free_text="Hypothesis-generated translation units compiled and run under ASan/UBSan"))
+ENGINES.append(dict(name="K", path="harness/compile", serves_properties=["C19"], kind_free_text="Hypothesis-generated programs, shipped negatives and macro dumps; g++/clang++ -fsyntax-only at C++14/17/20"))
